@@ -48,9 +48,13 @@ package runs
 // ---- C07 / C20: history token for saved results (argument values as passed, before truncation)
 //@ pure resultSaved(r *run, name string, value string, category string, input string, node flows.NodeUUID) bool
 
+// C05: the saved value is cut to the configured maximum
 //@ func (r *run) SaveResult
-//@   trusted
+//@   havocs addResult, Save, Now
+//@   requires r != nil && result != nil && !isnil(r.session) && SessRep(r.session.(*engine.session))
 //@   assigns computed
+//@   ensures [truncated] runes(result.Value) <= r.session.(*engine.session).engine.(*engine.engine).options.MaxResultChars
+//@   ensures [kept_if_short] old(runes(result.Value)) <= r.session.(*engine.session).engine.(*engine.engine).options.MaxResultChars ==> result.Value == old(result.Value)
 //@   records resultSaved(r, old(result.Name), old(result.Value), old(result.Category), old(result.Input), old(result.NodeUUID))
 
 // ---- C10 / C01: run location
@@ -62,3 +66,17 @@ package runs
 //@   ensures [located] isnil(result2) ==> (typeis(result0, *step) && result0.(*step) != nil && !isnil(result1) && nodeRep(result1) && !isnil(r.flow) && result0 == r.path[len(r.path) - 1] && result1 == r.flow.(*definition.flow).nodeMap[result0.(*step).nodeUUID])
 //@   ensures [not_located] !isnil(result2) ==> (isnil(result0) && isnil(result1))
 //@   ensures [no_flow] isnil(r.flow) ==> !isnil(result2)
+
+// ---- C05: evaluated template text is cut to the configured maximum when the caller asks for truncation
+//@ func (r *run) EvaluateTemplateText
+//@   havocs RootContext, MergedEnvironment, Template, NewXObject, NewError, NewWarning
+//@   requires r != nil && !isnil(r.session) && SessRep(r.session.(*engine.session))
+//@   assigns computed, effects(flows.EventCallback)
+//@   ensures [truncated] truncate ==> runes(result0) <= r.session.(*engine.session).engine.(*engine.engine).options.MaxTemplateChars
+//@ loop 1
+//@   invariant true
+
+//@ func (r *run) EvaluateTemplate
+//@   requires r != nil && !isnil(r.session) && SessRep(r.session.(*engine.session))
+//@   assigns computed, effects(flows.EventCallback)
+//@   ensures [truncated] runes(result0) <= r.session.(*engine.session).engine.(*engine.engine).options.MaxTemplateChars
